@@ -3,7 +3,7 @@ import os, sys, json, time, hashlib, subprocess, collections, random, re, shutil
 
 VERIF = os.path.dirname(os.path.dirname(os.path.abspath(__file__)))
 REPO = os.environ.get('VERIF_REPO', '/repo')
-BUILD = os.path.join(VERIF, '.build')
+BUILD = os.environ.get('VERIF_BUILD') or os.path.join(VERIF, '.build')
 sys.path.insert(0, VERIF)
 
 from mirsym.mir import parse_mir
@@ -20,6 +20,18 @@ FEATURESETS = {
     'all': ['--features', 'serde,decode,docs,bit-vec'],
 }
 ENV = dict(os.environ, CARGO_NET_OFFLINE='true')
+
+
+def crates_root():
+    """directory holding the harness crates `replay/` and `kani/`.  Against /repo they are used in place; against another checkout
+    (VERIF_REPO: seeded-change evaluation, background runs) a private copy under BUILD is used so that concurrent runs do not disturb each other"""
+    if REPO == '/repo': return VERIF
+    root = os.path.join(BUILD, 'crates')
+    if not os.path.isdir(os.path.join(root, 'replay')):
+        os.makedirs(root, exist_ok=True)
+        for c in ('replay', 'kani'):
+            shutil.copytree(os.path.join(VERIF, c), os.path.join(root, c), ignore=shutil.ignore_patterns('target', '.cargo-lock'))
+    return root
 
 
 class CheckInconclusive(Exception):
@@ -59,18 +71,27 @@ def load_mir(fs='default'):
     return _mir_cache[fs]
 
 
+def point_crate_at_repo(cargo_toml):
+    """the harness crates depend on the repository by path; when VERIF_REPO names another checkout (background runs on a snapshot) rewrite that path"""
+    t = open(cargo_toml).read()
+    t2 = re.sub(r'(scale-info = \{ path = ")[^"]+(")', lambda m: m.group(1) + REPO + m.group(2), t)
+    if t2 != t: open(cargo_toml, 'w').write(t2)
+
+
 class Native:
     """the replay binary built against /repo's working tree; JSON line protocol"""
     def __init__(self, features=None):
         t0 = time.time()
         tdir = os.path.join(BUILD, 'replay-target' + ('-' + features.replace(',', '_') if features else ''))
-        shutil.copyfile(os.path.join(REPO, 'Cargo.lock'), os.path.join(VERIF, 'replay', 'Cargo.lock'))
+        rdir = os.path.join(crates_root(), 'replay')
+        shutil.copyfile(os.path.join(REPO, 'Cargo.lock'), os.path.join(rdir, 'Cargo.lock'))
+        point_crate_at_repo(os.path.join(rdir, 'Cargo.toml'))
         fl = []
         if features:
             fs_ = [f for f in features.split(',') if f != 'nostd']
             if 'nostd' in features.split(','): fl.append('--no-default-features')
             if fs_: fl += ['--features', ','.join(fs_)]
-        r = subprocess.run(['cargo', 'build', '--offline'] + fl, cwd=os.path.join(VERIF, 'replay'), env=dict(ENV, CARGO_TARGET_DIR=tdir),
+        r = subprocess.run(['cargo', 'build', '--offline'] + fl, cwd=rdir, env=dict(ENV, CARGO_TARGET_DIR=tdir),
                            stdout=subprocess.PIPE, stderr=subprocess.STDOUT, text=True)
         if r.returncode != 0:
             raise CheckInconclusive('replay binary does not build against the working tree:\n' + r.stdout[-1500:])
